@@ -1,11 +1,10 @@
 /-
   Model of internal/ast/compiler/disjunctions_infer_mapping.go.
   `OnDisjunction` hook on disjunctions made of references only, no recursion into branches.
-  * `inferDiscriminatorField` ranges over a Go map: when several fields qualify the chosen one
-    depends on the map iteration order.  The model takes the choice as a parameter
-    (`pick : List String → String` applied to the qualifying names in field order); `run` uses the
-    lexicographically smallest and `ambiguous` tells whether any site had more than one candidate
-    (the correspondence streams skip those cases, property C03 owns the finding).
+  * `inferDiscriminatorField` examines the candidate field names of the first branch in SORTED order
+    (`sort.Strings`) and takes the first one present in every branch: the alphabetically smallest
+    qualifying name (`smallest`).  The choice is kept as a parameter `pick` of `hookWith` only
+    because the preservation lemmas do not depend on it.
   * partial operations: `def.Branches[0]` on an empty disjunction, `referredType.AsStruct()` on a
     branch that does not resolve to a struct, `Value.(string)` / `ReferenceValue.(string)`.
   * on a failed mapping inference the discriminator inferred so far STAYS (it was written through
@@ -119,18 +118,5 @@ def runWith (pick : List String → String) (ss : Schemas) : Outcome Schemas :=
   runDisjPass (hookWith pick) ss
 
 def run (ss : Schemas) : Outcome Schemas := runWith smallest ss
-
-/-- does any visited refs-only disjunction without discriminator have ≥ 2 qualifying fields?
-    (run the pass with a hook that fails on ambiguity) -/
-def ambiguous (ss : Schemas) : Bool :=
-  let probe : Schemas → Schema → DisjHook := fun cur s bs info m =>
-    if hasOnlyRefs bs && info.discriminator == "" && !(info.discriminator != "" && !info.mapping.isEmpty) then
-      match qualifying s (Schemas.fuel cur) bs with
-      | .ok q => if q.length ≥ 2 then .err "ambiguous" else .ok (.disj bs info m)
-      | _ => .ok (.disj bs info m)
-    else .ok (.disj bs info m)
-  match runDisjPass probe ss with
-  | .err _ => true
-  | _ => false
 
 end Cog.Passes.DisjunctionInferMapping
